@@ -301,6 +301,9 @@ def verify(ops, sut, aux, mask, cache, stats=None):
                 if not (seen is not None and seen[1] == "InfeasibleError"):
                     return _fail(k, op, "solver exception did not surface as InfeasibleError from select()", seen or r)
             continue
+        if "exc" in r and any(t in r["exc"][2] for t in ("box too large", "objective too large", "non-integral objective")):
+            st("c15:request-skipped-peer-declined(size)")
+            continue   # the scripted peer itself declined (its exact arithmetic would overflow): nothing to judge
         if "exc" in r:
             return _fail(k, op, "request raised although the peer answered", r["exc"])
         # ---- (4) answers reported back by id
